@@ -538,11 +538,48 @@ fn first_flush_race(case: &Value) -> Value {
            "flush_failed": flush_failed, "final_bad": final_bad, "first_failure": first_failure})
 }
 
+/// A store AT the configured limits: `peers` peers with `addrs` long addresses each (default limits 1500 / 6), flushed to
+/// an absent path and loaded back; then a second store with one more peer flushes (merge) and the file is loaded again.
+fn big_store(case: &Value) -> Value {
+    let dir = tempfile::tempdir().unwrap();
+    let path = dir.path().join("big_cache.json");
+    let cfg = BootstrapCacheConfig::empty().with_cache_path(&path);     // MAX_PEERS / MAX_ADDRS_PER_PEER as shipped
+    let peers = case["peers"].as_u64().unwrap();
+    let addrs = case["addrs"].as_u64().unwrap();
+    let mut store = BootstrapCacheStore::new(cfg.clone()).unwrap();
+    for i in 0..peers {
+        let id = peer_text(i + 1);
+        for j in 0..addrs {
+            let a: Multiaddr = format!("/ip4/2{:02}.2{:02}.1{:02}.2{:02}/udp/6{:04}/quic-v1/p2p/{}", i % 50, (i / 50) % 50, j, (i / 2500) % 50, 1000 + j, id)
+                .parse()
+                .unwrap();
+            store.add_addr(a);
+        }
+    }
+    let in_memory = (store.peer_count(), store.get_all_addrs().count());
+    let flush1 = store.sync_and_flush_to_disk(true).is_ok();
+    let size1 = std::fs::metadata(&path).map(|m| m.len()).unwrap_or(0);
+    let load1 = BootstrapCacheStore::load_cache_data(&cfg);
+    let l1 = load1.as_ref().map(|d| (d.peers.len(), d.peers.values().map(|l| l.0.len()).sum::<usize>())).ok();
+    let err1 = load1.err().map(|e| e.to_string());
+    // the merge: one more peer in a fresh store, flushed over the big file
+    let mut store2 = BootstrapCacheStore::new(cfg.clone()).unwrap();
+    store2.add_addr(format!("/ip4/9.9.9.9/udp/9/quic-v1/p2p/{}", peer_text(9_000_000)).parse().unwrap());
+    let flush2 = store2.sync_and_flush_to_disk(true).is_ok();
+    let size2 = std::fs::metadata(&path).map(|m| m.len()).unwrap_or(0);
+    let l2 = BootstrapCacheStore::load_cache_data(&cfg)
+        .map(|d| (d.peers.len(), d.peers.values().map(|l| l.0.len()).sum::<usize>()))
+        .ok();
+    json!({"in_memory": in_memory, "flush1": flush1, "size1": size1, "load1": l1, "err1": err1,
+           "flush2": flush2, "size2": size2, "load2": l2})
+}
+
 fn run(case: &Value) -> Value {
     match case["op"].as_str().unwrap() {
         "history" => history(case),
         "concurrent" => concurrent(case),
         "ctor" => ctor(case),
+        "big_store" => big_store(case),
         "first_flush_race" => first_flush_race(case),
         // the Multiaddr parser as an oracle: protocol lists of the given texts
         "parse" => Value::Array(
